@@ -26,6 +26,9 @@ func genC06(r *simrt.RNG, tier string, variant int) Plan {
 	case 1, 2:
 		p.Clients = append(p.Clients, ClientPlan{Name: "B", Kind: "http", Server: 0})
 	}
+	if r.Bool(0.15) {
+		p.Params["sampled"] = 1 // the callers trace their calls with sampled spans
+	}
 	tok := 1
 	if r.Bool(0.3) {
 		// a notification whose handler stays busy until the end of the run: cancels
@@ -87,6 +90,10 @@ func genC06(r *simrt.RNG, tier string, variant int) Plan {
 }
 
 func runC06(e *Env, p *Plan) {
+	if p.Param("sampled", 0) > 0 {
+		defer Sampled()()
+		e.Probe("calls-carry-sampled-span-contexts")
+	}
 	w, err := e.Build(p)
 	if err != nil {
 		e.Violate("setup", "building the world failed on a healthy network: %v", err)
